@@ -4,9 +4,10 @@ package vrand
 
 import "verif/vs"
 
-var floats = []float64{0.5, 0, 0.999999}
+// Floats are the representative draws; a scenario may narrow them at the start of an execution.
+var Floats = []float64{0.5, 0, 0.999999}
 
-func Float64() float64 { return floats[vs.Choose(len(floats))] }
+func Float64() float64 { return Floats[vs.Choose(len(Floats))] }
 
 func Intn(n int) int {
 	if n <= 1 {
